@@ -60,7 +60,9 @@ class Env:
     env = {
         'PATH': os.environ.get('PATH', '/usr/bin:/bin'),
         'PYTHONHASHSEED': hashseed,
-        'PYTHONPATH': VERIF,
+        # FSIM_REPO: run against a snapshot of the repository instead of the
+        # editable install (background soaks while /repo is being edited)
+        'PYTHONPATH': (os.environ['FSIM_REPO'] + os.pathsep if os.environ.get('FSIM_REPO') else '') + VERIF,
         'PYTHONPYCACHEPREFIX': self.pyc,
         'HOME': os.environ.get('HOME', '/root'),
         'FIDDLE_VERIF': '1',
